@@ -162,6 +162,29 @@ class Interp:
             self.source.record(mod.relpath, cur.node, modname + ":" + qualname)
         return cur
 
+    def exec_fragment(self, modname, qualname, selector, locals_, label=None):
+        """Execute a statement region of a (long) function, located by a structural selector
+        (DESIGN 2.2): selector(function ast node) -> list of statements.  The fragment's free
+        variables are given in `locals_`; returns the frame (its assigned variables are the
+        outputs).  A missing anchor makes the path undecided."""
+        f = self.find_function(modname, qualname)
+        try:
+            stmts = selector(f.node)
+        except (StopIteration, IndexError, KeyError, AttributeError) as e:
+            raise Unsupported("fragment anchor not found in %s.%s: %r" % (modname, qualname, e))
+        if not stmts:
+            raise Unsupported("fragment anchor not found in %s.%s" % (modname, qualname))
+        mod = self.load_module(modname)
+        text = self.source.files[mod.relpath][1].splitlines()
+        import hashlib
+        lo, hi = stmts[0].lineno, stmts[-1].end_lineno
+        self.source.extracted["%s:%s#%s" % (modname, qualname, label or "fragment")] = {
+            "file": mod.relpath, "lines": [lo, hi], "fragment_of": qualname,
+            "sha256": hashlib.sha256("\n".join(text[lo - 1:hi]).encode()).hexdigest()}
+        fr = Frame(f, dict(locals_), f.module, None, f.cls)
+        self.ex_block(stmts, fr)
+        return fr
+
     # ------------------------------------------------------------------ names
     def lookup(self, name, frame):
         fr = frame
